@@ -6,7 +6,8 @@ PATCH="$(realpath "$1")"; shift
 HERE="$(cd "$(dirname "$0")/.." && pwd)"
 SCR="$(mktemp -d /tmp/verif-try.XXXXXX)"
 if ! git -C /repo diff --quiet; then echo "/repo has uncommitted changes; refusing"; exit 9; fi
-git -C /repo apply "$PATCH" || { echo "patch does not apply"; exit 9; }
+git -C /repo apply "$PATCH" 2>/dev/null || { echo "patch does not apply"; exit 9; }
+git -C /repo reset -q 2>/dev/null
 trap 'git -C /repo checkout -- . ; rm -rf "$SCR"' EXIT
 for id in "$@"; do
   echo "=== $id on $(basename "$(dirname "$PATCH")")/$(basename "$PATCH")"
